@@ -21,13 +21,14 @@ import (
 func TestMain(m *testing.M) { vlib.Main(m, "C05"); os.Exit(0) }
 
 // op kinds:
-//   revcomp, reverse                 applied to target (0 = original, 1 = clone)
-//   clone                            B = A.Clone() (only once)
-//   set                              Row(r).Set(pos, letter)           (mutation used for independence)
-//   row-revcomp                      Row(r).RevComp()
-//   append                           AppendColumns of one column        (aligned kinds)
-//   delete                           Delete(r)                          (alignment, multi; rows >= 2)
-//   row-setoffset                    Row(r).SetOffset(o)                (multi rows / linear)
+//
+//	revcomp, reverse                 applied to target (0 = original, 1 = clone)
+//	clone                            B = A.Clone() (only once)
+//	set                              Row(r).Set(pos, letter)           (mutation used for independence)
+//	row-revcomp                      Row(r).RevComp()
+//	append                           AppendColumns of one column        (aligned kinds)
+//	delete                           Delete(r)                          (alignment, multi; rows >= 2)
+//	row-setoffset                    Row(r).SetOffset(o)                (multi rows / linear)
 type op struct {
 	Kind   string `json:"kind"`
 	Target int    `json:"target"`
@@ -338,7 +339,9 @@ func check(c algebraCase) *vlib.Failure {
 			obj.Delete(o.Row % nrows)
 			resync(obj, mdl)
 		case "row-setoffset":
-			if c.Spec.Aligned() || nrows == 0 {
+			// (on a row of a column-stored alignment this moves the row's own annotation only: the
+			// letters stay addressed through the alignment's coordinates)
+			if nrows == 0 {
 				continue
 			}
 			obj.Row(o.Row % nrows).SetOffset(o.Off)
